@@ -28,6 +28,9 @@ FINDINGS = {
     "C19-subscribe-during-load-misses-events": "SummonSwamp looks for subscribers before the new instance is in the swamp map: a client that "
                                                "subscribes while the swamp is being loaded finds no instance to switch on, and the instance "
                                                "starts with event sending off",
+    "C19-event-dropped-during-destroy-drain": "Destroy switches event sending off before it drains the in-flight requests: a record "
+                                              "inserted during the drain is committed (the swamp is then closed, not destroyed) but "
+                                              "its NEW event is never sent",
     "C19-event-time-from-record-metadata": "Event.EventTime is taken from the record's CreatedAt / ModifiedAt (client-supplied metadata) "
                                            "instead of the clock: the wire time of a change is whatever instant the client stored",
     "C19-event-time-nanos-as-seconds": "SubscribeToEvents converts Event.EventTime (UnixNano) with time.Unix(EventTime, 0): the wire "
@@ -67,6 +70,19 @@ def spec_violated(rep):
             m = re.search(r"overlap=(\d+)", line)
             if m and int(m.group(1)) > 0:
                 return "SendMsg calls overlapped under load (%s)" % line
+        if mode == "drain":
+            if f[0] == "sub" and line == "ok":
+                subs.add(int(f[1]))
+            got = {int(i): [e for e in body.split(";") if e] for i, body in re.findall(r" s(\d+)=\[([^\]]*)\]", line)}
+            if f[0] == "spawn" and f[2] == "set":
+                vals["_p" + f[1]] = (f[3], "s." + f[4])
+            if f[0] == "go" and " done st=NEW" in line and ("_p" + f[1]) in vals:
+                k, v = vals.pop("_p" + f[1])
+                for i in sorted(subs):
+                    evs = got.get(i, [])
+                    if len(evs) != 1 or not evs[0].startswith("N:%s=%s@ok" % (k, v)):
+                        return "subscriber %d received %s for the committed insert of %s (an auto-destroy was draining)" % (i, evs, k)
+            continue
         if mode == "late":
             if f[0] == "sub" and line == "ok":
                 subs.add(int(f[1]))
@@ -85,7 +101,7 @@ def spec_violated(rep):
         got = {int(i): [e for e in body.split(";") if e] for i, body in re.findall(r" s(\d+)=\[([^\]]*)\]", line)}
         # expected events by the Spec
         exp = []
-        if f[0] in ("set", "setm"):
+        if f[0] in ("set", "setm", "sete"):
             k, v = f[1], "s." + f[2]
             if k not in vals:
                 exp = [("N", k, v, None)]
@@ -102,7 +118,7 @@ def spec_violated(rep):
                 nv = "i.%d" % (int(vals[k][2:]) + n)
                 exp = [("M", k, nv, vals[k])]
                 vals[k] = nv
-        elif f[0] in ("del", "shift"):
+        elif f[0] in ("del", "shift", "shifte"):
             if f[1] in vals:
                 exp = [("D", f[1], vals[f[1]], None)]
                 del vals[f[1]]
@@ -131,7 +147,7 @@ def run(ctx):
     corrs = []
     if K.build_hx(ctx) and K.build_drv(ctx):
         args = ["%s=%s" % (k, facts.get(k, "unknown")) for k in
-                ("timeConv", "sendUnderMutex", "resetsChangedFlags", "oldIsLive", "emittedUnderGuard", "fanoutSynchronous", "eventTimeFromClock", "checksSubscribersAfterStore")]
+                ("timeConv", "sendUnderMutex", "resetsChangedFlags", "oldIsLive", "emittedUnderGuard", "fanoutSynchronous", "eventTimeFromClock", "checksSubscribersAfterStore", "stopsSendingAfterDrain")]
         env = {"C19_EXPECT_SERIAL": "1" if facts.get("sendUnderMutex") == "yes" else "0"}
         c = K.correspondence(ctx, "C19", args, hx_env=env, timeout=600)
         corrs.append(("C19", args, c))
